@@ -267,7 +267,7 @@ class ApplyMixin:
         ]
 
     # ------------------------------------------------------------------ calling repository functions
-    def bind_params(self, fnode: ast.FunctionDef, args: List[SV], kwargs: Dict[str, SV], st, fr, sorts=None) -> Dict[str, SV]:
+    def bind_params(self, fnode: ast.FunctionDef, args: List[SV], kwargs: Dict[str, SV], st, fr, sorts=None, owner=None) -> Dict[str, SV]:
         a = fnode.args
         names = [x.arg for x in a.args]
         env = {}
@@ -309,7 +309,12 @@ class ApplyMixin:
         for n in names + [x.arg for x in a.kwonlyargs]:
             if n not in env:
                 if n in defaults:
-                    env[n] = self.ev(defaults[n], St(st.guards, st.facts, {}, st.heap, st.eff, st.epoch), fr)
+                    dfr = fr
+                    if owner is not None and owner.file != getattr(fr.fi, "file", None):
+                        # default expressions are evaluated in the callee's module
+                        dfr = Frame(owner, None, owner.cls, kind=fr.kind)
+                        self.init_frame(dfr)
+                    env[n] = self.ev(defaults[n], St(st.guards, st.facts, {}, st.heap, st.eff, st.epoch), dfr)
                 else:
                     raise Untranslatable(f"missing argument {n}")
         return env
@@ -346,7 +351,7 @@ class ApplyMixin:
         sub.abstracted = fr.abstracted
         # the inlined body may raise what the caller declares
         sub.contract = type("C", (), {"raises": fr.contract.raises if fr.contract else [], "sorts": (fr.contract.sorts if fr.contract else {})})()
-        env = self.bind_params(fi.node, args, kwargs, st, fr)
+        env = self.bind_params(fi.node, args, kwargs, st, fr, owner=fi)
         env = self.apply_param_sorts(fi, env, sub)
         callee = St(st.guards, st.facts, env, st.heap, st.eff, st.epoch)
         outs = self.exec_block(fi.node.body, callee, sub)
@@ -463,7 +468,7 @@ class ApplyMixin:
     def apply_contract(self, c, fi, args, kwargs, st, fr, node, fnode=None) -> SV:
         fnode = fnode if fnode is not None else (fi.node if fi is not None else None)
         if fnode is not None:
-            env = self.bind_params(fnode, args, kwargs, st, fr)
+            env = self.bind_params(fnode, args, kwargs, st, fr, owner=fi)
         else:
             env = {f"a{i}": a for i, a in enumerate(args)}
             env.update(kwargs)
